@@ -125,6 +125,7 @@ type Scenario struct {
 	Faults   []PeerFault `json:"faults,omitempty"`
 	Post     []string    `json:"post,omitempty"` // reopen ship corrupt crash-probe
 	PipeCap  int         `json:"pipe_cap,omitempty"`
+	PipeBreak int        `json:"pipe_break,omitempty"` // ship: the pipe breaks after this many bytes (0: never)
 	Corrupt  []Corruption `json:"corrupt,omitempty"`
 	OtherPack bool       `json:"other_pack,omitempty"` // a further task packs another tree with its own rule file (slug.Pack) while the build runs: both consume the same ignore-rule machinery
 	CloseTask bool       `json:"close_task,omitempty"` // Close is issued by task 0 after its Adds instead of after all tasks
